@@ -509,10 +509,10 @@ func (l *lexer) scan() {
 
 			case ast.ContextCSS:
 				if isHTML && c == '<' && isEndStyle(l.src[p:]) {
-					// </style>
+					// </style, the next byte is lexed as text
 					l.ctx = fileContext
-					p += 7
-					l.column += 7
+					p += 6
+					l.column += 6
 				} else if c == '"' || c == '\'' {
 					l.ctx = ast.ContextCSSString
 					quote = c
@@ -532,18 +532,18 @@ func (l *lexer) scan() {
 					if isHTML && isEndStyle(l.src[p:]) {
 						l.ctx = fileContext
 						quote = 0
-						p += 7
-						l.column += 7
+						p += 6
+						l.column += 6
 					}
 				}
 
 			case ast.ContextJS:
 				if isHTML && c == '<' && isEndScript(l.src[p:]) {
-					// </script>
+					// </script, the next byte is lexed as text
 					l.ctx = fileContext
 					jsComment = jsCommentNone
-					p += 8
-					l.column += 8
+					p += 7
+					l.column += 7
 				} else if jsComment == jsCommentLine {
 					if c == '\n' || c == '\r' {
 						jsComment = jsCommentNone
@@ -584,17 +584,17 @@ func (l *lexer) scan() {
 					if isHTML && isEndScript(l.src[p:]) {
 						l.ctx = fileContext
 						quote = 0
-						p += 8
-						l.column += 8
+						p += 7
+						l.column += 7
 					}
 				}
 
 			case ast.ContextJSON:
 				if isHTML && c == '<' && isEndScript(l.src[p:]) {
-					// </script>
+					// </script, the next byte is lexed as text
 					l.ctx = fileContext
-					p += 8
-					l.column += 8
+					p += 7
+					l.column += 7
 				} else if c == '"' {
 					l.ctx = ast.ContextJSONString
 					quote = '"'
@@ -614,8 +614,8 @@ func (l *lexer) scan() {
 					if isHTML && isEndScript(l.src[p:]) {
 						l.ctx = fileContext
 						quote = 0
-						p += 8
-						l.column += 8
+						p += 7
+						l.column += 7
 					}
 				}
 
